@@ -332,7 +332,7 @@ pub fn run_eval(src: &str, plan: &Plan, eval_id: u64, reset_all: bool) -> RunRes
     sim::marker("EVAL+");
     alloc::set_mode(plan.alloc_mode);
     let r = catch_unwind(AssertUnwindSafe(|| eval_text(src, plan.tail)));
-    alloc::set_mode(alloc::PLAIN);
+    alloc::reset_mode();
     sim::marker("EVAL-");
     finish_run(r, eval_id, reset_all, true)
 }
